@@ -26,7 +26,8 @@ pub struct Case {
     /// authenticator configuration (hmac-secret 0/1/2, evaluation at creation, counters, id length)
     #[serde(default)]
     pub cfg: super::common::AuthCfg,
-    /// the registration also carries a prf input: 0 no, 1 empty prf object, 2 eval.first
+    /// the registration also carries a prf input: 0 no, 1 empty prf object, 2 eval.first,
+    /// 3 only prfAlreadyHashed, 4 prf and prfAlreadyHashed
     #[serde(default)]
     pub prf: u8,
     /// how the store is handed to the authenticator: 0 as it is, 1 inside Arc<tokio Mutex>, 2 inside
@@ -101,7 +102,7 @@ pub fn cases() -> Vec<Case> {
                 }
                 for cred_props in 0..3 {
                     for (hmac, hmac_mc) in [(0u8, false), (1, false), (2, false), (2, true)] {
-                        for prf in 0..3u8 {
+                        for prf in 0..5u8 {
                             for counter in [false, true] {
                                 let cfg = super::common::AuthCfg { counter, id_len: None, hmac, hmac_mc, order: 0 };
                                 // the wrappers are spread over the configuration cells, and every
@@ -273,11 +274,13 @@ where
             user_verification: Default::default(),
         });
         let prf = match c.prf {
-            0 => None,
+            0 | 3 => None,
             1 => Some(webauthn::AuthenticationExtensionsPrfInputs { eval: None, eval_by_credential: None }),
             _ => Some(webauthn::AuthenticationExtensionsPrfInputs { eval: Some(webauthn::AuthenticationExtensionsPrfValues { first: vec![1, 2, 3].into(), second: None }), eval_by_credential: None }),
         };
-        let extensions = (c.cred_props != 0 || c.prf != 0).then(|| webauthn::AuthenticationExtensionsClientInputs { cred_props: (c.cred_props != 0).then_some(c.cred_props == 2), prf, prf_already_hashed: None });
+        // 3: only the pre-hashed variant of the PRF input; 4: both variants
+        let prf_already_hashed = (c.prf >= 3).then(|| webauthn::AuthenticationExtensionsPrfInputs { eval: Some(webauthn::AuthenticationExtensionsPrfValues { first: vec![9; 32].into(), second: None }), eval_by_credential: None });
+        let extensions = (c.cred_props != 0 || c.prf != 0).then(|| webauthn::AuthenticationExtensionsClientInputs { cred_props: (c.cred_props != 0).then_some(c.cred_props == 2), prf, prf_already_hashed });
         let opts = creation_options(Reg { rp_id: c.android.then(|| "example.com".to_string()), selection, extensions, user_id: vec![7, 7], ..Default::default() });
         match par::catch(|| with_case_origin(c, org, |o| block_on(client.register(o, opts, DefaultClientData)))) {
             Err(p) => {
@@ -399,7 +402,7 @@ pub fn run(ctx: &Ctx) -> Result<Run, String> {
     let n = cs.len() as u64;
     let mut run = Run::from_stats(
         "model_checking",
-        "complete product store capability(3) x residentKey{no selection, absent, discouraged, preferred, required} x requireResidentKey(2) x authenticatorAttachment{absent, platform, cross-platform} x credProps{absent,false,true} x authenticator configuration {no hmac-secret, UV-only, with non-UV secret, with evaluation at creation} x prf input {absent, empty, eval} x counters on/off, the store handed over bare / inside Arc<Mutex> / Arc<RwLock> / Mutex (the shipped lock wrappers), on a fresh authenticator and on one that earlier answered getInfo / registered while the store had another capability, from the web origin and from an Android app origin, and with every dotted host-like string constant of the client's sources (and www.<it>, x<it>) as relying party where the client accepts it, through Client::register + Client::authenticate, plus capability(3) x rk(2) through Authenticator::make_credential; each configuration runs a registration and two assertions with the new credential (default requirement with a verified user; verification discouraged with a present but unverified user); every configuration is non-trivial (it reaches save_credential or the required-rk refusal)",
+        "complete product store capability(3) x residentKey{no selection, absent, discouraged, preferred, required} x requireResidentKey(2) x authenticatorAttachment{absent, platform, cross-platform} x credProps{absent,false,true} x authenticator configuration {no hmac-secret, UV-only, with non-UV secret, with evaluation at creation} x prf input {absent, empty, eval, pre-hashed only, both} x counters on/off, the store handed over bare / inside Arc<Mutex> / Arc<RwLock> / Mutex (the shipped lock wrappers), on a fresh authenticator and on one that earlier answered getInfo / registered while the store had another capability, from the web origin and from an Android app origin, and with every dotted host-like string constant of the client's sources (and www.<it>, x<it>) as relying party where the client accepts it, through Client::register + Client::authenticate, plus capability(3) x rk(2) through Authenticator::make_credential; each configuration runs a registration and two assertions with the new credential (default requirement with a verified user; verification discouraged with a present but unverified user); every configuration is non-trivial (it reaches save_credential or the required-rk refusal)",
         true,
         stats,
     );
